@@ -173,7 +173,7 @@ def run(ctx):
         r.check(callers == [jas.qname], "%s#callers(%s)" % (COORD, nm), "%s called from %s" % (nm, callers), facts=callers)
 
     # ---- R5 heartbeat only when stable
-    r = ctx.rule("R5", "heartbeat sent only when not stopping, no rejoin needed, none in flight; one caller", 2, "B")
+    r = ctx.rule("R5", "heartbeat sent only when not stopping, no rejoin needed, none in flight; one caller", 3, "B")
     ch = ctx.cfg(hb)
     fh = ctx.facts(hb)
     snd = [n for n in ch.nodes if any(call_name(x) == "send_heartbeat_request" for x in n.calls())]
@@ -187,6 +187,24 @@ def run(ctx):
             facts=sorted(t for t, pol in f0))
     callers = sorted({f.qname for f in prog.functions(module="_group") for x in calls_in(f, "send_heartbeat_request")})
     r.check(callers == [hb.qname], "%s#callers(send_heartbeat_request)" % COORD, "heartbeat sender called from %s" % callers)
+    # the flag that gates the heartbeat says "stable" only once the sync reply is in: apart from stop(), it is cleared
+    # only in the join routine, after the sync exchange
+    cci = prog.cls(COORD)
+    clr_w = [(f, n) for f, k, n in prog.attr_accesses(cci, "_rejoin_needed", False) if k == "write" and f.name != "__init__" and isinstance(
+        n, ast.Assign) and isinstance(n.value, ast.Constant) and n.value.value is False]
+    cjs = ctx.cfg(jas)
+    sync_nodes = [n.id for n in cjs.nodes if any(call_name(x) == "send_sync_group_request" for x in n.calls())]
+    bad_w = []
+    for f, n in clr_w:
+        if f.name == "stop":
+            continue
+        nn = cjs.node_of(n) if f is jas else None
+        if nn is None or not sync_nodes or not cjs.dominates(sync_nodes, nn.id):
+            bad_w.append("%s:%d" % (f.qname, n.lineno))
+    r.check(bool(clr_w) and not bad_w, "%s#stable-only-after-sync" % COORD,
+            "`_rejoin_needed` is cleared at %s: not in the join routine after the sync exchange" % bad_w, facts=sorted("%s:%d" % (f.qname, n.lineno) for f, n in clr_w),
+            witness="a heartbeat tick between the JoinGroup reply and the SyncGroup reply sends a heartbeat from a member that is not stable; "
+            "its rebalance-in-progress answer then leaves the flag set for good: the member never heartbeats or rejoins again")
 
     # ---- R6 nothing but leave after stop (check-after-yield)
     r = ctx.rule("R6", "group requests after a real suspension are dominated by a re-check of _stopping", 3, "B")
